@@ -507,7 +507,7 @@ E(e, env, m) ==
              n == EvalNamed(e.named, 1, env, a.m, <<>>) IN
          IF ~Ok(n.m) THEN R(n.m, NoneV)
          ELSE IF o.v.t = "struct" THEN       \* a field holding a callable
-            (LET fv == GetAttr(o.v, e.name, e.ncp, n.m, e.line) IN
+            (LET fv == GetAttr(o.v, e.name, IF "ncp" \in DOMAIN e THEN e.ncp ELSE <<>>, n.m, e.line) IN
              IF ~Ok(fv.m) THEN fv ELSE CallV(fv.v, a.vs, n.vs, n.m, e.line, TRUE))
          ELSE IF n.m.depth + 1 >= n.m.cap THEN R(Raise(n.m, "depth", e.line), NoneV)
          ELSE CallMethod(o.v, e.name, a.vs, n.vs, n.m, e.line))
